@@ -106,14 +106,51 @@ def bounds_ms(cfg):
 
 
 def setting_representable(cfg):
-    return (64 * cfg[0] + (64 * cfg[1] + 500) // 1000 < 65536 and
-            64 * cfg[2] + (64 * cfg[3] + 500) // 1000 < 65536)
+    """what the setters accept (uint16 integer part > 0, fraction < 1000): C06_timeout_range's hypothesis"""
+    return 0 < cfg[0] < 65536 and 0 <= cfg[1] < 1000 and 0 < cfg[2] < 65536 and 0 <= cfg[3] < 1000
+
+
+def readback_cfgs(line, out):
+    """The settings in force are what the library's getters report after the setters ran (the
+    driver prints them first: 0.cfg:k:...).  A value the setters refuse (integer part 0, fraction
+    >= 1000, max_retransmit 0) leaves the library's default; neither the defaults nor the setters'
+    acceptance rules are C06's business, so model and oracle take the read-back values."""
+    cfgs, _ = parse_case(line)
+    got = {}
+    for w in out.split():
+        m = re.match(r"^0\.cfg:(\d+):(\d+):(\d+):(\d+):(\d+):(\d+)$", w)
+        if m:
+            got[int(m.group(1))] = tuple(int(x) for x in m.groups()[1:])
+    if len(got) != len(cfgs):
+        return None
+    return [got[k] + (cfgs[k][5],) for k in range(len(cfgs))]
+
+
+def model_line(line, out):
+    """the case line with the session settings replaced by the read-back values"""
+    rb = readback_cfgs(line, out)
+    if rb is None:
+        return line
+    t = line.split()
+    for k, c in enumerate(rb):
+        t[2 + 6 * k: 8 + 6 * k] = [str(x) for x in c]
+    return " ".join(t)
+
+
+def run_pair(model, drv, lines):
+    """C first, then the model on the settings the library says are in force"""
+    oc, crashes = vlib.run_lines_robust(drv, lines)
+    ml = [model_line(l, o) if l.startswith("c06 ") else l for l, o in zip(lines, oc)]
+    om, _ = vlib.run_lines_robust(model, ml)
+    return om, oc, crashes
 
 
 def impl_oracle(line, out):
     """Evaluate the property on what the implementation did.  Returns (problems, facts)."""
     cfgs, ev = parse_case(line)
+    cfgs = readback_cfgs(line, out) or cfgs
     items = parse_items(out)
+    items = [i for i in items if i[1] != "cfg"]
     ns = len(cfgs)
     problems = []
     by_ev = {}
@@ -450,7 +487,6 @@ def main(run):
         "ocaml/d_sched.ml glue: event parsing, 'W' (sleep as long as the last prepare said)"]
     run.assumptions = [
         "timing is claimed at the resolution of the code's Q.6 fixed point (1/64 s per setting) and of one tick (1 ms)",
-        "settings representable in 16-bit Q.6 (integer part <= 1022; above: known finding K06-1)",
         "max_retransmit <= 255 in the theorems (8-bit retransmit_cnt); no wrap of the 64-bit tick counter",
         "only the send queue's timers enter the reported wait (no observe/async/block/DTLS/keep-alive timers); "
         "after an empty ACK to a request the library's own receive timer is compared one-sidedly",
@@ -508,7 +544,7 @@ def main(run):
     for c in gens:
         cases.append((c, G.line_of(c)))
     lines = [c[1] for c in cases]
-    om, oc, crashes = tie.run_both(model, drv, lines)
+    om, oc, crashes = run_pair(model, drv, lines)
     run.cov["driver_crashes"] = len(crashes)
     nbad = 0
     oracle_self = []
@@ -557,13 +593,13 @@ def main(run):
                     def still(prefix, cand):
                         c2 = {"cfgs": c["cfgs"], "ev": cand}
                         l2 = G.line_of(c2)
-                        a, b, _ = tie.run_both(model, drv, [l2])
+                        a, b, _ = run_pair(model, drv, [l2])
                         if probs:
                             return bool(impl_oracle(l2, b[0])[0]) if not b[0].startswith(("CRASH", "ERROR")) else True
                         return compare(l2, a[0], b[0]) is not None
                     ev2 = tie.shrink_ops(None, c["ev"], still, max_steps=250)
                     small = G.line_of({"cfgs": c["cfgs"], "ev": ev2})
-                a, b, _ = tie.run_both(model, drv, [small])
+                a, b, _ = run_pair(model, drv, [small])
                 p2 = impl_oracle(small, b[0])[0] if not b[0].startswith(("CRASH", "ERROR")) else ["crash"]
                 run.violation(bad, "case: %s\nmodel: %s\nimpl : %s\noracle on impl: %s\n(original case: %s)\n" %
                               (small, a[0], b[0], p2 or "holds", ln), tag="tie%d" % nbad,
@@ -604,20 +640,14 @@ def main(run):
             probs, rep = calcrow_oracle(ln, b)
             n_in += rep
             n_out += (not rep)
-            if probs and rep:
+            if probs and not rep and kf_wrap:
+                run.known(kf_wrap, ln)
+            elif probs:
                 sbad += 1
-                run.violation("initial timeout out of range: " + probs[0],
-                              "case: %s\nimpl : %s\nmodel: %s\n" % (ln, b, a), tag="calc%d" % sbad)
-            elif probs and not rep:
-                if kf_wrap:
-                    run.known(kf_wrap, ln)
-                else:
-                    sbad += 1
+                if sbad <= 3:
                     run.violation("initial timeout out of range: " + probs[0],
                                   "case: %s\nimpl : %s\nmodel: %s\n" % (ln, b, a), tag="calc%d" % sbad)
-        if a != b and (rep or not kf_wrap):
-            # (outside the representable settings the property already fails - K06-1 - and the
-            # theorems say nothing: only the oracle above looks at those rows)
+        if a != b:
             sbad += 1
             if sbad <= 3:
                 run.violation("coap_calc_timeout differs from the proved model (leaf sweep)",
